@@ -226,13 +226,21 @@ def proj_c05(c):
         return 'skipped'
     ti, tf, tr = c.step['txns'], c.mf.get('fills', []), c.mr.get('fills', [])
     # pair fills per (pid, order id): the matching order is C04's business
-    by_f = {(t['pid'], t['id']): t for t in tf}
-    by_r = {(t['pid'], t['id']): t for t in tr}
+    # (an identifier may have been used for several orders: pair the k-th fill carrying it with the model's k-th)
+    import collections as _c
+    by_f, by_r = _c.defaultdict(list), _c.defaultdict(list)
+    for t_ in tf:
+        by_f[(t_['pid'], t_['id'])].append(t_)
+    for t_ in tr:
+        by_r[(t_['pid'], t_['id'])].append(t_)
+    seen_ = _c.Counter()
     for t in ti:
         key = (t['pid'], t['id'])
-        if key not in by_f:
+        k_ = seen_[key]
+        seen_[key] += 1
+        if k_ >= len(by_f[key]) or k_ >= len(by_r[key]):
             continue
-        f, r = by_f[key], by_r[key]
+        f, r = by_f[key][k_], by_r[key][k_]
         tag = 'fill %s/%s' % key
         c.disc(tag + ' time', t['time'], f['time'])
         c.disc(tag + ' quantity', t['qty'], f['qty'])
